@@ -20,9 +20,9 @@ from harness.checks.c05 import Hang, with_timeout
 from harness.checks.c10 import bits
 
 
-def valid_case(rng):
+def valid_case(rng, several=False):
     n_types = rng.choice([1, 1, 2])
-    pos = [(1, 1)] + [p for p in gi.core_positions(2)[1:] if rng.random() < 0.3]
+    pos = [(1, 1)] + [p for p in gi.core_positions(2)[1:] if rng.random() < (0.7 if several else 0.3)]
     case = gi.random_case(rng, positions=pos, n_types=n_types, gap_model=rng.choice(['flow', 'none', 'no_flow', 'duct_average']),
                           length=round(rng.uniform(0.08, 0.3), 3), flow_range=(0.3, 6.0), const_props=rng.random() < 0.5,
                           type_kw=dict(n_duct=rng.choice([1, 2, 2])))
@@ -46,7 +46,7 @@ def valid_case(rng):
     return case
 
 
-FAULTS = ["duct-zero-wall", "pins-do-not-fit", "wire-too-thick", "clad-too-thick", "zero-pin-pitch", "negative-pin-diameter", "zero-duct-ftf",
+FAULTS = ["power-wrong-count-later-assembly", "power-short-later-assembly", "duct-zero-wall", "pins-do-not-fit", "wire-too-thick", "clad-too-thick", "zero-pin-pitch", "negative-pin-diameter", "zero-duct-ftf",
           "duct-ge-pitch", "unequal-outer-ducts", "axial-regions-overlap", "axial-region-inverted", "missing-bc", "negative-flowrate",
           "unknown-material", "unknown-correlation", "negative-power", "power-gap-between-cells", "power-wrong-pin-count",
           "flow-gap-no-bypass", "zero-core-length", "odd-duct-values", "zero-step-request"]
@@ -136,6 +136,29 @@ def inject(rng, case, fault, lowfid=False, near=False, excess=0.01):
         for row in c['power']['rows']:
             if row[2] == zb[1]:
                 row[2] = zb[1] + 0.01 * (zb[2] - zb[1])
+    elif fault in ("power-wrong-count-later-assembly", "power-short-later-assembly"):
+        # the fault sits in the power profile of ONE assembly that is not the first of its type
+        by_type = {}
+        for a in c['assignment']:
+            by_type.setdefault(a['type'], []).append(gi.position_index(a['ring'], a['pos']))
+        # (pin-bundle types only: a homogenised assembly has no pins to count, its profile is only summed)
+        cands = [sorted(v)[-1] for tn_, v in by_type.items() if len(v) > 1 and not c['types'][tn_].get('use_low_fidelity_model')]
+        if not cands:
+            return None
+        victim = rng.choice(cands)
+        rows = c['power']['rows']
+        if fault == "power-wrong-count-later-assembly":
+            last_item = max(int(r[4]) for r in rows if int(r[0]) == victim and int(r[1]) == 1)
+            c['power']['rows'] = [r for r in rows if not (int(r[0]) == victim and int(r[1]) == 1 and int(r[4]) == last_item)]
+        else:
+            zmax = max(float(r[3]) for r in rows if int(r[0]) == victim)
+            zcut = max(float(r[2]) for r in rows if int(r[0]) == victim)
+            if zcut <= 0.0:          # a single power cell: shorten it
+                for r in rows:
+                    if int(r[0]) == victim:
+                        r[3] = 0.8 * zmax
+            else:                    # drop the top cell of this assembly only
+                c['power']['rows'] = [r for r in rows if not (int(r[0]) == victim and float(r[2]) == zcut)]
     elif fault == "power-wrong-pin-count":
         c['power']['rows'] = [r for r in c['power']['rows'] if not (int(r[1]) == 1 and int(r[4]) == 1)]
     elif fault == "flow-gap-no-bypass":
@@ -261,7 +284,7 @@ def run(ctx):
     n_valid = 24 if ctx.thorough else 8
     reqs, expect = [], []
     for ci in range(n_valid):
-        case = valid_case(rng)
+        case = valid_case(rng, several=ci % 2 == 1)
         cls, detail, computed = classify(case, str(ctx.work / ("v%d" % ci)))
         ctx.evals += 1
         ctx.count("valid:" + cls)
